@@ -24,6 +24,8 @@ void __vf_memcpy(void *d, const void *s, size_t n);
 void __vf_memmove(void *d, const void *s, size_t n);
 void __vf_memset(void *d, int c, size_t n);
 extern int __vf_cur;
+void __vf_lifetime_end(void *p, uint64_t n);
+void __vf_racy_pre(void *p); void __vf_racy_post(void *p);
 #define malloc(n) __vf_malloc(n)
 #define realloc(p, n) __vf_realloc(p, n)
 #define free(p) __vf_free(p)
